@@ -234,8 +234,9 @@ class Shape(object):
 
     def implicit_class_targets(self):
         types = list(self.sg.graph.objects(self.node, RDF_type))
-        subclasses = list(self.sg.graph.subjects(RDFS_subClassOf, RDFS_Class))
-        subclasses.append(RDFS_Class)
+        # a shape is also a class when it is a SHACL instance of rdfs:Class:
+        # rdf:type followed by zero or more rdfs:subClassOf steps in the shapes graph
+        subclasses = set(self.sg.graph.transitive_subjects(RDFS_subClassOf, RDFS_Class))
         for t in types:
             if t in subclasses:
                 return [self.node]
